@@ -37,26 +37,50 @@ def main():
     except ModuleNotFoundError:
         print(f"ANALYSIS-ERROR property={prop} no check module")
         return 2
-    try:
-        program = Program(a.repo)
+    def attempt(program):
+        """run the property's rules on one view of the program; returns (exit code, captured output, report)"""
+        import contextlib
+        import io
+
+        buf = io.StringIO()
         report = Report(prop, a.tier, program)
         report.write_evidence = (os.path.abspath(a.repo) == "/repo") and not a.no_evidence
+        report.defer_evidence = True
+        rc = 2
+        with contextlib.redirect_stdout(buf):
+            try:
+                try:
+                    mod.run(report, program)
+                except AnalysisError as e:
+                    # a violation established by one rule stands even if a later rule cannot interpret the code: report it
+                    # (exit 1) and mention the part that was not analysed; without an established violation this stays an analysis error
+                    from sa.rules import load_known
+
+                    open_keys = {k["key"] for k in load_known().get("open", []) if k.get("property") == prop}
+                    if not any(f.key not in open_keys for r in report.rules for f in r.findings):
+                        raise
+                    print(f"ANALYSIS-NOTE property={prop} not everything could be analysed ({e}); the violations found before that point follow")
+                    rc = mod.finish(report) or 2
+                else:
+                    rc = mod.finish(report)
+            except AnalysisError as e:
+                print(f"ANALYSIS-ERROR property={prop} {e}")
+                rc = 2
+            except Exception:
+                print(traceback.format_exc())
+                print(f"ANALYSIS-ERROR property={prop} internal error in the checker (traceback above)")
+                rc = 2
+        return rc, buf.getvalue(), report
+
+    try:
+        program = Program(a.repo)
         bad = program.dynamic_constructs()
         if bad:
             raise AnalysisError("dynamic constructs make the call graph unsound: " + "; ".join(bad[:5]))
-        try:
-            mod.run(report, program)
-        except AnalysisError as e:
-            # a violation established by one rule stands even if a later rule cannot interpret the code: report it (exit 1),
-            # and mention the part that was not analysed; without an established violation this stays an analysis error
-            from sa.rules import load_known
-
-            open_keys = {k["key"] for k in load_known().get("open", []) if k.get("property") == prop}
-            if not any(f.key not in open_keys for r in report.rules for f in r.findings):
-                raise
-            print(f"ANALYSIS-NOTE property={prop} not everything could be analysed ({e}); the violations found before that point follow")
-            return mod.finish(report) or 2
         if a.explain:
+            report = Report(prop, a.tier, program)
+            report.write_evidence = False
+            mod.run(report, program)
             want = json.load(open(a.explain))["key"]
             hits = [f for r in report.rules for f in r.findings if f.key == want]
             if hits:
@@ -65,7 +89,34 @@ def main():
                 return 1
             print(f"NOT PRESENT on the current tree: {want}")
             return 0
-        rc = mod.finish(report)
+        if os.environ.get("VERIF_FORCE_INLINED"):  # development aid: judge the helper-inlined view alone
+            program = Program(a.repo, inline_from=program)
+        rc, out, report = attempt(program)
+        if rc != 0 and not os.environ.get("VERIF_FORCE_INLINED"):
+            # second, equivalent view of the same program: private same-module helpers inlined into their callers (sa/inline.py).
+            # Both views denote the same behaviour, so obligations discharged on either view are discharged; a violation that only the
+            # inlined view can name is a violation too. Otherwise the plain view's result is reported.
+            try:
+                inl = Program(a.repo, inline_from=program)
+                rc2, out2, report2 = attempt(inl)
+            except Exception as e:  # the normalisation itself must never decide anything
+                rc2, out2, report2 = 2, f"(helper-inlined view not available: {e})", None
+            first = next((l for l in out.splitlines() if l.startswith(("VIOLATION", "ANALYSIS-ERROR"))), "")
+            if rc2 == 0:
+                print(f"[{prop}] plain view not conclusive ({first[:160]}); evaluated on the helper-inlined view of the same sources:")
+                rc, out, report = rc2, out2, report2
+            if rc2 == 0:
+                pass
+            elif os.environ.get("VERIF_DEBUG_VIEWS"):
+                sys.stdout.write("---- helper-inlined view (debug) ----\n" + "\n".join(l for l in out2.splitlines() if not l.startswith(f"[{prop}] R")) + "\n---- plain view ----\n")
+                if inl.inline_stats:
+                    sys.stdout.write("inline refusals: " + json.dumps({k: v["refused"] for k, v in inl.inline_stats.items() if v.get("refused")}) + "\n")
+            elif rc == 2 and rc2 == 1:
+                print(f"[{prop}] plain view: {first[:200]}; the helper-inlined view of the same sources reports:")
+                rc, out, report = rc2, out2, report2
+        sys.stdout.write(out)
+        if report is not None:
+            report.flush_evidence()
         if rc == 0 and a.tier == "thorough" and not a.no_selftest and a.repo == "/repo":
             from selftest import run_selftest
 
